@@ -184,7 +184,8 @@ pub fn verif_decrypt_chunks<T: Read, U: Write>(
     aad: &[u8],
     chunk_size: u32,
 ) -> Result<(), DecryptError> {
-    decrypt_chunks(ciphertext, plaintext, key, aad, chunk_size)
+    // `.map(|_| ())`: keeps compiling if the private loop starts returning a value (e.g. a byte count)
+    decrypt_chunks(ciphertext, plaintext, key, aad, chunk_size).map(|_| ())
 }
 
 /// Check if the given data conforms to one of the [`FileFormat`] types.
